@@ -249,6 +249,28 @@ fn c17_ws_server_paths(case: &Case) {
                 }
             }
         }
+        // requests the reader refuses itself, with a query so long that the refusal (which echoes
+        // it) is about as large as the limit: unknown method, or a query that is not even UTF-8
+        if let Some(l) = limit
+            && l <= 70_000
+            && !case.failed()
+            && simkernel::choose(3) == 0
+        {
+            for non_utf8 in [false, true] {
+                id += 1;
+                let qlen = pick(&[l / 2 - 40, l - 200, l - 60, l - 48, l + 10]).max(8);
+                let q: Vec<u8> = if non_utf8 { std::iter::once(b'/').chain(std::iter::repeat_n(0xffu8, qlen - 1)).collect() } else { std::iter::once(b'/').chain(std::iter::repeat_n(b'u', qlen - 1)).collect() };
+                let _ = send_frame(&mut sink, &Frame::new(id, &q, b"1").with_formats(1, 2)).await;
+                let want = id;
+                let ib = inbox.clone();
+                wait_until(60_000, || !ib.responses_for(want).is_empty() || ib.ended()).await;
+                let rs = inbox.responses_for(id);
+                case.probe("refusal_about_as_large_as_the_limit");
+                if !case.check(rs.len() == 1 && rs[0].ec != 0, "no-response", || format!("a request with a {qlen}-byte {} query (limit {l}) was refused but {} responses with its id arrived (ended={})", if non_utf8 { "non-UTF-8" } else { "unknown" }, rs.len(), inbox.ended())) {
+                    break;
+                }
+            }
+        }
         // the wire invariant itself, and the connection is still usable
         if let Some(l) = limit {
             let m = inbox.max_binary.load(Ordering::SeqCst);
